@@ -265,7 +265,15 @@ fn normalise(v: Vec<T>, types: bool) -> Vec<T> {
 }
 
 pub fn check_case(c: &Case, st: &mut Stats) -> PResult {
-    let h5 = conv(&tokens(&c.input));
+    // html5ever 0.39 itself panics on a few inputs (index out of bounds in its <meta> charset
+    // extraction): no reference, no verdict
+    let h5 = match guard(|| tokens(&c.input)) {
+        Ok(v) => conv(&v),
+        Err(_) => {
+            st.excluded("the reference parser (html5ever) panicked on this input");
+            return Ok(());
+        }
+    };
     let strict = lol(c.input.as_bytes(), &c.cuts, true, c.capture).map_err(|p| Failure::new(format!("C03: panic in strict run: {p}\n  input={:?}", c.input)))?;
     st.eval();
     let types = c.capture == 0;
